@@ -25,6 +25,9 @@ struct Model {
     advances: u8,
     t1: bool,
     t2: bool,
+    /// the service-deployed token T1's address has also been registered as a canonical token
+    /// (anybody may do that); transfers through T1's own id must go on burning and minting
+    t1_also_canonical: bool,
     trusted: bool,
     /// tokens: 0 T1, 1 T2, 2 gas token, 3 T3 (second service-deployed token), 4 T4 (second canonical)
     bal: [[i128; 6]; 5],
@@ -52,6 +55,8 @@ enum Amt {
 enum Act {
     Deploy,
     Register,
+    /// register_canonical_token(address of the service-deployed token T1)
+    RegisterDeployedAsCanonical,
     SetTrusted,
     RemoveTrusted,
     /// token: 0 T1, 1 T2, 2 unknown id; gas: 0 = 1 unit, 1 = more than the sender has, 2 = zero, 3 = negative
@@ -136,6 +141,7 @@ impl Scenario for C05 {
             advances: 0,
             t1: false,
             t2: false,
+            t1_also_canonical: false,
             trusted: true,
             bal: [[0; 6], [20, 5, 0, 0, 0, 0], [3, 1, 0, 0, 0, 0], [0, 20, 0, 0, 0, 0], [20, 0, 0, 0, 0, 0]],
             locked: [0; 5],
@@ -158,6 +164,7 @@ impl Scenario for C05 {
         let mut v = vec![];
         if !m.t1 { v.push(Act::Deploy); }
         if !m.t2 { v.push(Act::Register); }
+        if m.t1 && !m.t1_also_canonical { v.push(Act::RegisterDeployedAsCanonical); }
         let amts = [Amt::One, Amt::All, Amt::AllPlus1, Amt::Zero, Amt::Neg];
         for token in 0..3u8 {
             for sender in 0..2usize {
@@ -249,6 +256,13 @@ impl Scenario for C05 {
                 out.accepted = c.ok;
                 out.expect(c.ok == !m.t2, "register.outcome", || format!("ok={} ({})", c.ok, c.err));
                 if c.ok { m.t2 = true; }
+            }
+            Act::RegisterDeployedAsCanonical => {
+                out.kind = "register";
+                let c = w.call(&iw.its, "register_canonical_token", &[ctx.t1.to_val()], Auth::Nobody);
+                out.accepted = c.ok;
+                out.expect(c.ok, "register.outcome", || format!("registering the deployed token's address as canonical: ok={} ({})", c.ok, c.err));
+                if c.ok { m.t1_also_canonical = true; }
             }
             Act::SetTrusted | Act::RemoveTrusted => {
                 out.kind = "trust";
